@@ -12,7 +12,7 @@ from ..universe import make_event, PK, SK, compute_id, _sign
 
 ID = "C15"
 LEVEL = "model_checking"
-ASSUMPTIONS = ["see C09; 'unpredictable' is checked as: each challenge is exactly one fresh draw of secrets.token_hex(16) (recorded source) and "
+ASSUMPTIONS = ["real nostr_relay code imported from /repo's working tree, driven through web.start_client / the storage API; SQLite runs for real behind a same-thread connection shim (bound to real aiosqlite by C06's conformance cases); LMDB is an in-memory double (bound to the real liblmdb by C10's conformance cases), msgpack is pip's pure-python codec; asyncio runs on a controlled virtual-time loop; 'unpredictable' is checked as: each challenge is exactly one fresh draw of secrets.token_hex(16) (recorded source) and "
                "depends on nothing else - the entropy of `secrets` itself is outside what enumeration can decide"]
 CHUNK = 1
 URL = "ws://relay.example:6969"
